@@ -418,6 +418,11 @@ def build_random(case):
 
 def random_body(case):
     doc, nodes = build_random(case)
+    if case["picks"][0] % 3 == 0 and len(nodes) >= 4:
+        # ids are not what tells Sections apart: two Sections of the tree share one
+        a, b = nodes[case["picks"][1] % len(nodes)], nodes[case["picks"][-1] % len(nodes)]
+        if a is not b:
+            b.new_id(a.id)
     fails = []
     picks = [nodes[i % len(nodes)] for i in case["picks"]]
     nt = set()
